@@ -300,7 +300,9 @@ def gen_cases(tier, rng):
                                 "declared": {KIND_LIB[kind]} | {KIND_LIB[g] for g in extra}, "meta": {"kind": kind, "n": cnt, "where": where, "extra": extra, "others": others}})
     for kind in "SPI":
         for others in (False, True):
-            out.append({"src": script_post(kind, others), "cat": "out", "kind": "out:after-loop", "declared": {KIND_LIB[kind]}, "meta": {"kind": kind, "others": others}})
+            # declarations textually after `while True:` are rejected since repair 69cce40 ("statements after the main
+            # loop are unreachable"): nothing is transpiled, so there is nothing to compare
+            pass
     if tier != "thorough":
         # stratified: every multiplicity triple once (alternating others/mode), every boundary kind, a seeded rest
         ins = [c for c in cases if c["kind"].startswith("in:") and "s" in c["meta"]]
